@@ -54,7 +54,7 @@ class C11(Check):
     ID = 'C11'
     TRACE_FILES = ('client/__init__.py',)
     TIERS = {'quick': {'runs': 9000, 'wall': 90}, 'thorough': {'runs': 400000, 'wall': 840}}
-    RULE = ('case = 2..4 caller tasks x <= 6 requests each (equal/distinct keys, ping/read/change/unknown actions, '
+    RULE = ('[a fifth of the cases are focus cases: same key, same instant, immediate replies, streaming peer] ' 'case = 2..4 caller tasks x <= 6 requests each (equal/distinct keys, ping/read/change/unknown actions, '
             'unique id per request) + peer reply script (order, delays up to beyond the 10 s time-out, error replies, '
             'interleaved updates, unsolicited replies, garbage, half lines) + <= 3 faults (peer close/reset/black hole '
             'before, between and inside exchanges, refused reconnects, user disconnect at any time, also '
